@@ -137,6 +137,31 @@ func flagOf(p *core.Prog, rel, tname string) (core.Field, []*ssa.Function, bool)
 			fields[h.f] = append(fields[h.f], h.fn)
 		}
 	}
+	if len(fields) > 1 {
+		// several bool members are set to true somewhere (the replied flag plus a marker added next
+		// to it): the replied flag is the one the type's code reads and writes far more often than
+		// any other (at least twice as often)
+		type cnt struct {
+			f core.Field
+			n int
+		}
+		var cs []cnt
+		scope := p.FuncsOfPkg(rel)
+		for f := range fields {
+			f := f
+			cs = append(cs, cnt{f, len(core.FieldAccesses(scope, func(g core.Field) bool { return g == f }))})
+		}
+		sort.Slice(cs, func(i, j int) bool {
+			if cs[i].n != cs[j].n {
+				return cs[i].n > cs[j].n
+			}
+			return cs[i].f.Name < cs[j].f.Name
+		})
+		if cs[0].n >= 2*cs[1].n && cs[0].n >= 4 {
+			return cs[0].f, fields[cs[0].f], true
+		}
+		return core.Field{}, nil, false
+	}
 	if len(fields) != 1 {
 		return core.Field{}, nil, false
 	}
